@@ -1179,7 +1179,7 @@ class OpenFlow_01_Task (Task):
 
         sock_error = None
         if sys.exc_info()[0] is socket.error:
-          sock_error = sys.exc_info()[1][0]
+          sock_error = sys.exc_info()[1].errno
 
         if con is listener:
           do_close = False
